@@ -23,7 +23,8 @@ REAL_VS_STUB = {"real": ["gen_params end to end incl. load_ff_library, parsers, 
                 "stub": ["tqdm disabled", "sys.argv pinned", "os.listdir of the library directory answered by the harness",
                          "polyply DATA_PATH redirected to a scratch directory for generated libraries"]}
 PROBES = ["dim_hash", "dim_repeat", "dim_fileorder", "dim_listdir", "dim_relabel", "dim_history", "lib_family",
-          "history_with_failed_call", "protein_family_with_terminal_modifications"]
+          "history_with_failed_call", "protein_family_with_terminal_modifications",
+          "linktype_family", "replace_link_family"]
 
 
 def n_runs(tier):
@@ -83,8 +84,11 @@ def gen_job(verif_seed, tier, index):
             members.append({"dim": "history", "hashseed": e.choice(histgen.PALETTE), "ops": hist + [base],
                             "observe": len(hist)})
         return {"index": index, "run_seed": seed, "members": members, "lib": True}
-    ff = ffgen.gen_ff(g)
-    rg = ffgen.gen_resgraph(g, ff)
+    if g.random() < 0.1:
+        ff, rg = ffgen.gen_ff_linktype(g)
+    else:
+        ff = ffgen.gen_ff(g)
+        rg = ffgen.gen_resgraph(g, ff)
     base = histgen.make_op(ff, rg, g, graph_kind="json")
     members.append({"dim": "base", "hashseed": 0, "ops": [base], "observe": 0})
     for hs in g.sample(histgen.PALETTE[1:], g.randint(1, 3)):
@@ -115,7 +119,7 @@ def gen_job(verif_seed, tier, index):
                                                                  edge_order=_perm(e, len(rg["edges"])),
                                                                  flip=[i for i in range(len(rg["edges"])) if e.random() < 0.5])}
         members.append({"dim": "relabel", "hashseed": e.choice(histgen.PALETTE), "ops": [op], "observe": 0})
-    if rg["shape"] == "linear":
+    if rg["shape"] == "linear" and not rg.get("edge_attrs"):
         op = dict(base)
         op["graph"] = {"kind": "seq", "seq": ffgen.seq_list(rg)}
         members.append({"dim": "relabel", "hashseed": e.choice(histgen.PALETTE), "ops": [op], "observe": 0})
@@ -209,6 +213,12 @@ def run_job(job):
                               "msg": "two consecutive identical runs in one process wrote different files (below the header)"})
     if job.get("lib"):
         probes["lib_family"] = 1
+    if not job.get("lib"):
+        txt = " ".join(t for _f, t in job["members"][0]["ops"][0].get("files", []))
+        if '"linktype"' in txt:
+            probes["linktype_family"] = 1
+        if '"replace"' in txt:
+            probes["replace_link_family"] = 1
     if job.get("protein"):
         probes["protein_family_with_terminal_modifications"] = 1
     digest = h.hexdigest()[:24]
